@@ -802,16 +802,28 @@ fn c12_oracle(case: &str, k: usize, op: &Op, outcome: &Outcome, before: &OForest
         if !matches!(guard(|| st.xot.to_string(st.known[&clone])), Ok(Ok(_))) {
             // known mechanism: the cloned element is in no namespace (so it cannot carry a default-namespace declaration) and an
             // element below it is in a namespace that the scope it is cloned out of binds only as the default namespace
-            let cls = if c12_default_only_below_no_namespace_top(st, before, src) { "clone-out-of-default-namespace-under-no-namespace-top" } else { "clone-with-prefixes-does-not-serialise" };
-            out.fail(case, cls, &format!("step {}: `{}`: the source serialises in place but the clone does not serialise on its own", k, op_str(op)));
+            // second known mechanism: as above, but the scope also binds that namespace to prefixes, every one of which the cloned
+            // element re-declares itself for another namespace (so there is still nothing the clone's top can copy)
+            let cls = match c12_default_only_below_no_namespace_top(st, before, src) {
+                Some(false) => "clone-out-of-default-namespace-under-no-namespace-top",
+                Some(true) => "clone-out-of-default-namespace-top-redeclares-the-prefix",
+                None => "clone-with-prefixes-does-not-serialise",
+            };
+            let src_text = guard(|| st.xot.to_string(st.known[&src])).ok().and_then(|r| r.ok()).unwrap_or_default();
+            let err_text = match guard(|| st.xot.to_string(st.known[&clone])) { Ok(Err(e)) => format!("{:?}", e), Ok(Ok(_)) => "-".into(), Err(()) => "panic".into() };
+            out.fail(case, cls, &format!("step {}: `{}`: the source serialises in place (as {:?}) but the clone does not serialise on its own ({})", k, op_str(op), src_text, err_text));
         }
     }
 }
 
 /// class predicate of the C12 known finding (syntactic, on the store before the call)
-fn c12_default_only_below_no_namespace_top(st: &Store, f: &OForest, src: Handle) -> bool {
+/// Some(false): an element below the no-namespace source is in a namespace that the scope of the source's parent binds to
+/// the empty prefix and to no other prefix; Some(true): it binds it to the empty prefix and to other prefixes, every one of
+/// which the source element declares itself for another namespace; None: neither
+fn c12_default_only_below_no_namespace_top(st: &Store, f: &OForest, src: Handle) -> Option<bool> {
     let ns_of = |name: usize| st.reg.names[name].1;
-    match &f.nodes[&src].val { OVal::El(n) if ns_of(*n) == 0 => {} _ => return false }
+    match &f.nodes[&src].val { OVal::El(n) if ns_of(*n) == 0 => {} _ => return None }
+    let own: Vec<(usize, usize)> = f.nodes[&src].kids.iter().filter_map(|k| if let OVal::Ns(p, n) = f.nodes[k].val { Some((p, n)) } else { None }).collect();
     // bindings in force at the parent of the source, nearest declaration wins
     let mut outer: Vec<(usize, usize)> = vec![];
     let mut cur = f.nodes[&src].parent;
@@ -822,14 +834,18 @@ fn c12_default_only_below_no_namespace_top(st: &Store, f: &OForest, src: Handle)
         cur = f.nodes[&a].parent;
     }
     let mut stack: Vec<Handle> = f.nodes[&src].kids.clone();
+    let mut shadowed = false;
     while let Some(h) = stack.pop() {
         if let OVal::El(n) = &f.nodes[&h].val {
             let u = ns_of(*n);
-            if u != 0 && outer.iter().any(|(p, m)| *p == 0 && *m == u) && !outer.iter().any(|(p, m)| *p != 0 && *m == u) { return true; }
+            if u != 0 && outer.iter().any(|(p, m)| *p == 0 && *m == u) {
+                if !outer.iter().any(|(p, m)| *p != 0 && *m == u) { return Some(false); }
+                if outer.iter().filter(|(p, m)| *p != 0 && *m == u).all(|(p, _)| own.iter().any(|(q, w)| q == p && *w != u)) { shadowed = true; }
+            }
         }
         stack.extend(f.nodes[&h].kids.iter().copied());
     }
-    false
+    if shadowed { Some(true) } else { None }
 }
 
 /// C12: clone-heavy histories; every node kind as source; mutation of either side afterwards; plus Xot::clone
